@@ -32,6 +32,12 @@ type input struct {
 	Finish bool        `json:"finish"`
 }
 
+// anyInput is what --replay reads: a forced schedule (the embedded input) or a burst schedule.
+type anyInput struct {
+	input
+	B *burstInput `json:"burstSchedule,omitempty"`
+}
+
 var logger = log.Logger("c15-harness")
 
 type runResult struct {
@@ -124,7 +130,7 @@ func run(in input, id string) emitted {
 	w.mu.Lock()
 	defer w.mu.Unlock()
 	evs := append([]string{}, w.log...)
-	coq := fmt.Sprintf("{| c_types := %s; c_prog := %s; c_settled := true; c_events := %s |}",
+	coq := fmt.Sprintf("(CLog {| c_types := %s; c_prog := %s; c_settled := true; c_events := %s |})",
 		lib.ListN(in.Types), renderProg(in.Prog), lib.List(evs))
 	var keyEvs []string
 	for _, e := range evs {
@@ -298,12 +304,17 @@ func main() {
 	em := lib.NewEmitter()
 	log.SetAllLoggers(log.LevelFatal)
 	if o.Replay != "" {
-		var in input
+		var in anyInput
 		if err := lib.LoadReplay(o.Replay, &in); err != nil {
 			fmt.Fprintln(os.Stderr, err)
 			os.Exit(2)
 		}
-		e := run(in, "replay")
+		var e emitted
+		if in.B != nil {
+			e = runBurstCase(*in.B, "replay")
+		} else {
+			e = run(in.input, "replay")
+		}
 		if e.skipped {
 			fmt.Fprintln(os.Stderr, "replay schedule was inconclusive (the machine did not settle)")
 			os.Exit(2)
@@ -329,6 +340,15 @@ func main() {
 		jobs = append(jobs, job{randomSchedule(rng.Fork(fmt.Sprintf("rand%d", i))), fmt.Sprintf("rand-%04d", i)})
 	}
 
+	// burst schedules run first, one at a time (they read goroutine states from runtime.Stack)
+	var bursts []emitted
+	for i, in := range burstCorpus() {
+		bursts = append(bursts, runBurstCase(in, fmt.Sprintf("burst-corpus-%02d", i)))
+	}
+	for i, n := 0, o.Count(4, 40); i < n; i++ {
+		bursts = append(bursts, runBurstCase(randomBurst(rng.Fork(fmt.Sprintf("burst%d", i))), fmt.Sprintf("burst-rand-%03d", i)))
+	}
+
 	results := make([]emitted, len(jobs))
 	var wg sync.WaitGroup
 	sem := make(chan struct{}, 48)
@@ -343,7 +363,7 @@ func main() {
 	}
 	wg.Wait()
 	skipped := 0
-	for _, e := range results {
+	for _, e := range append(bursts, results...) {
 		for _, t := range e.tallies {
 			em.Tally(t)
 		}
@@ -355,6 +375,9 @@ func main() {
 	}
 	em.Close("a case is the linearised event log of one forced schedule of the real AsyncMachine; distinct by "+
 		"(program, log without the 'not yet' ticks); non-trivial when at least two states were initiated and some "+
-		"message belonging to a later state was handed to an earlier state (a member lagging behind)",
+		"message belonging to a later state was handed to an earlier state (a member lagging behind); a burst case is the "+
+		"compact observation of one burst schedule (slow Receive, 513-720 messages pushed through the registered handler), "+
+		"distinct by (program, messages handed over), non-trivial when the producer was seen blocked in the handler, at least "+
+		"two states were initiated and a message for a later state went through an earlier one",
 		map[string]interface{}{"skipped": skipped})
 }
